@@ -40,6 +40,7 @@ def run(ctx) -> None:
     ctx.rule("C06.R1-only-dsl-invalid-error", "through explicit raises only DSLInvalidError can leave namespace_to_flowir; the configuration class converts it to ExperimentInvalidConfigurationError")
     ctx.rule("C06.R2-errors-carry-locations", "every error collected for DSLInvalidError is a DSLInvalidFieldError built with a location (or is wrapped before the raise)")
     ctx.rule("C06.R3-span-substitution", "parameter references are substituted by match span, not by str.replace on '%(name)s' text")
+    ctx.rule("C06.R5-ignore-list-scope", "parameter references may stay unresolved only inside a component's own body and only for that component's variables (plus 'replica')")
     ctx.rule("C06.R4-unique-names", "component names are numbered over the ordered components and every name is checked against the names already used")
     ctx.assume("implicit exceptions (KeyError, pydantic internals) are outside the model; FlowIRConcrete mutators called on the freshly built "
                "description are assumed not to raise except FlowIRComponentExists, which R4 excludes")
@@ -179,6 +180,36 @@ def run(ctx) -> None:
     unk = [n for n in source.walk_own(rm) if isinstance(n, ast.Raise) and n.exc is not None and "unknown parameter" in source.src(n.exc)]
     ctx.ob("C06.R3-span-substitution", unk[0] if unk else rm, bool(unk), "a reference to an unknown parameter raises" if unk else
            "a reference to an unknown parameter no longer raises")
+
+    # ---------------- R5: which names may stay unresolved ---------------------------------------------------------------
+    n5 = 0
+    for q, fn in d.functions.items():
+        for c in source.calls_in(fn, include_nested=False):
+            if call_name(c) != "replace_parameter_references":
+                continue
+            n5 += 1
+            kw = {k.arg: k.value for k in c.keywords}
+            v = kw.get("variables")
+            in_component_body = q.startswith("ComponentFlowIR.")
+            if in_component_body:
+                ok = v is not None and source.src(v).endswith("template.variables")
+                ctx.ob("C06.R5-ignore-list-scope", c, ok,
+                       "inside a component's own body only the component's own variables may stay unresolved" if ok else
+                       "the ignore list used while resolving a component's body is not that component's variables (%s)" % (short(v, 40) if v is not None else "missing"))
+            else:
+                ok = v is None or (isinstance(v, ast.Constant) and v.value is None)
+                ctx.ob("C06.R5-ignore-list-scope", c, ok,
+                       "arguments passed along the call chain are resolved with an empty ignore list (every %(name)s is a parameter of the caller)" if ok else
+                       "argument values supplied by the caller are resolved with a non-empty ignore list (%s): a parameter reference whose "
+                       "name coincides with a variable of the callee is left in place and later resolved to the callee's private variable "
+                       "instead of the argument supplied along the call chain" % short(v, 50))
+    ctx.floor("C06.R5-ignore-list-scope", n5, 2, "call sites of replace_parameter_references")
+    # the ignore list only suppresses names that are in it (and 'replica' for replicating templates)
+    rpr = d.func("replace_parameter_references")
+    adds = [c for c in source.calls_in(rpr) if last_attr(c) == "add" and dotted(c.func.value) == "variables"]
+    ok = all(c.args and isinstance(c.args[0], ast.Constant) and c.args[0].value == "replica" for c in adds)
+    ctx.ob("C06.R5-ignore-list-scope", rpr, ok, "replace_parameter_references only adds 'replica' to the ignore list" if ok else
+           "replace_parameter_references adds other names than 'replica' to the ignore list", construct="variables.add('replica') only")
 
     # ---------------- R4 -------------------------------------------------------------------------------
     naming = [n for n in source.walk_own(ntf) if isinstance(n, ast.For) and "number_to_roman_like_numeral" in source.src(n)]
